@@ -116,6 +116,16 @@ class Gen(object):
         self.stats = Counter()
 
     # ---- helpers
+    def deprecated(self, p):
+        """deprecated="1" with probability p; now and then an explicit deprecated="0" (means: not deprecated)"""
+        r = self.rng.random()
+        if r < p:
+            return ' deprecated="1"'
+        if r < p + 0.03:
+            self.stats.hit('deprecated=0')
+            return ' deprecated="0"'
+        return ''
+
     def name(self, prefix):
         self.uid += 1
         return '%s%d' % (prefix, self.uid)
@@ -240,8 +250,12 @@ class Gen(object):
         rng = self.rng
         s = self.attrs(indent)
         rv = ' transfer-ownership="%s"' % rng.choice(['none', 'none', 'full', 'container'])
-        if rng.random() < 0.15:
+        r = rng.random()
+        if r < 0.15:
             rv += ' nullable="1"'
+        elif r < 0.22:
+            rv += ' allow-none="1"'         # the older spelling of nullable
+            self.stats.hit('return:allow-none')
         if rng.random() < 0.08:
             rv += ' skip="1"'
         rt = ret or (('t', 'none', 'void', []) if rng.random() < 0.4 else self.gtype())
@@ -284,8 +298,7 @@ class Gen(object):
         ret = ('t', owner, 'T%s*' % owner, []) if tag == 'constructor' else None
         nm = self.name({'function': 'fn', 'method': 'meth', 'constructor': 'new'}[tag])
         a = ' name="%s" c:identifier="%s_%s"' % (nm, owner_prefix, nm)
-        if rng.random() < 0.12:
-            a += ' deprecated="1"'
+        a += self.deprecated(0.12)
         if rng.random() < 0.15:
             a += ' throws="1"'
         return nm, '%s<%s%s%s>\n%s%s</%s>\n' % (indent, tag, a, extra,
@@ -297,8 +310,7 @@ class Gen(object):
         a = ' name="%s"' % nm
         if toplevel:
             a += ' c:type="T%s"' % nm
-        if rng.random() < 0.1:
-            a += ' deprecated="1"'
+        a += self.deprecated(0.1)
         if rng.random() < 0.12:
             a += ' throws="1"'
         return nm, '%s<callback%s>\n%s%s</callback>\n' % (indent, a, self.callable_body(indent + '  '), indent)
@@ -309,12 +321,22 @@ class Gen(object):
         a = ' name="%s"' % nm
         if rng.random() < 0.5:
             a += ' writable="1"'
+        r = rng.random()
+        if r < 0.2:
+            a += ' readable="0"'           # what the scanner writes for private fields
+            self.stats.hit('field:readable=0')
+        elif r < 0.3:
+            a += ' readable="1"'
+            self.stats.hit('field:readable=1')
+        at = self.attrs(indent + '  ')
+        if at:
+            self.stats.hit('attrs-on:field')
         if embedded:
             _, cb = self.callback(indent + '  ', nm=nm, toplevel=False)
             self.stats.hit('field:embedded')
-            return '%s<field%s>\n%s%s</field>\n' % (indent, a, cb, indent)
+            return '%s<field%s>\n%s%s%s</field>\n' % (indent, a, at, cb, indent)
         self.stats.hit('field:plain')
-        return '%s<field%s>\n%s%s</field>\n' % (indent, a, self.render_type(self.gtype(in_field=True), indent + '  '), indent)
+        return '%s<field%s>\n%s%s%s</field>\n' % (indent, a, at, self.render_type(self.gtype(in_field=True), indent + '  '), indent)
 
     def constant(self, indent, toplevel):
         rng = self.rng
@@ -338,9 +360,10 @@ class Gen(object):
             val = str(rng.choice([lo, hi, 0, 1, rng.randint(lo, hi)]))
             ctype = kind
         a = ' name="%s" value=%s c:type="T_%s"' % (nm, quoteattr(val), nm)
-        if rng.random() < 0.1:
-            a += ' deprecated="1"'
-        at = self.attrs(indent + '  ') if toplevel else ''
+        a += self.deprecated(0.1)
+        at = self.attrs(indent + '  ')
+        if at and not toplevel:
+            self.stats.hit('attrs-on:member-constant')
         return '%s<constant%s>\n%s%s  <type name="%s" c:type="%s"/>\n%s</constant>\n' % (indent, a, at, indent, kind, ctype, indent)
 
     def prop(self, indent, methods):
@@ -362,13 +385,18 @@ class Gen(object):
             a += ' construct-only="1"'
             construct_only = True
         a += ' transfer-ownership="%s"' % rng.choice(['none', 'none', 'full', 'container'])
-        if rng.random() < 0.1:
-            a += ' deprecated="1"'
+        d = self.deprecated(0.1)
+        a += d
+        if d.endswith('"1"'):
+            self.stats.hit('property:deprecated')
         if methods and rng.random() < 0.3:
             a += ' setter="%s"' % rng.choice(methods)
         if methods and rng.random() < 0.3:
             a += ' getter="%s"' % rng.choice(methods)
-        return nm, '%s<property%s>\n%s%s</property>\n' % (indent, a, self.render_type(self.gtype(), indent + '  '), indent)
+        at = self.attrs(indent + '  ')
+        if at:
+            self.stats.hit('attrs-on:property')
+        return nm, '%s<property%s>\n%s%s%s</property>\n' % (indent, a, at, self.render_type(self.gtype(), indent + '  '), indent)
 
     def signal(self, indent):
         rng = self.rng
@@ -400,8 +428,9 @@ class Gen(object):
         a = ' name="%s" c:type="T%s"' % (nm, nm)
         if registered or (registered is None and rng.random() < 0.5):
             a += ' glib:type-name="T%s" glib:get-type="t_%s_get_type"' % (nm, nm.lower())
-        if rng.random() < 0.15:
-            a += ' deprecated="1"'
+        d = self.deprecated(0.15)
+        a += d
+        if d.endswith('"1"'):
             self.stats.hit('deprecated:%s' % kind)
         return a
 
@@ -465,9 +494,13 @@ class Gen(object):
         for i in range(n_values):
             v = rng.choice([i, 1 << i, -1 - i, 2147483647, -2147483648, 4294967295, 255])
             ma = ' name="v%d" value="%d" c:identifier="T_%s_V%d"' % (i, v, nm.upper(), i)
-            if rng.random() < 0.1:
-                ma += ' deprecated="1"'
-            body += '      <member%s/>\n' % ma
+            ma += self.deprecated(0.1)
+            at = self.attrs('        ')
+            if at:
+                self.stats.hit('attrs-on:member')
+                body += '      <member%s>\n%s      </member>\n' % (ma, at)
+            else:
+                body += '      <member%s/>\n' % ma
         for i in range(n_methods):
             body += self.function('      ', 'function', 't_' + nm.lower())[1]
         self.out.append((tag, nm, '    <%s%s>\n%s    </%s>\n' % (tag, a, body, tag)))
@@ -523,6 +556,9 @@ class Gen(object):
         parent = rng.choice([None] + self.classes + (['B.Obj'] if self.use_base else []))
         if parent:
             a += ' parent="%s"' % parent
+            if rng.random() < 0.05:
+                a += ' glib:fundamental="0"'       # explicit false
+                self.stats.hit('fundamental=0')
         else:
             a += ' glib:fundamental="1"'
             if rng.random() < 0.5:
@@ -715,7 +751,8 @@ class Api(object):
         return name if '.' in name else '%s.%s' % (self.ns, name)
 
     def dep(self, e):
-        return 1 if e.get('deprecated') is not None else 0
+        # deprecated="1" means deprecated; an explicit "0" means false (girparser.c compares with "1")
+        return 1 if e.get('deprecated') == '1' else 0
 
     # ---- attributes
     def attrs(self, path, e, tagw='attr', extra=()):
@@ -812,26 +849,16 @@ class Api(object):
         params = e.find(q('parameters'))
         plist = [] if params is None else params.findall(q('parameter'))
         inst = None if params is None else params.find(q('instance-parameter'))
-        if gen:
-            nullable = 1 if rv.get('allow-none') == '1' or rv.get('nullable') == '1' else 0
-        else:
-            nullable = 1 if rv.get('nullable') == '1' else 0
+        # nullable and its older spelling allow-none both mean may_return_null (both dialects)
+        nullable = 1 if rv.get('allow-none') == '1' or rv.get('nullable') == '1' else 0
         it = 2 if (inst is not None and inst.get('transfer-ownership') == 'full') else 0
-        # what girnode.c does not store (GIR->blob translation, C06's subject): `skip` of the return value
-        # for callbacks/signals/vfuncs, instance transfer for callbacks, return-value attributes of
-        # callbacks/vfuncs.  The source dialect leaves these open; the generate dialect is read literally.
         skip = 1 if rv.get('skip') == '1' else 0
-        if not gen and kind != 'function' and skip:
-            skip = '*'
         if not gen and kind == 'callback' and it:
-            it = '*'
+            it = '*'        # CallbackBlob signatures carry no instance parameter (never generated: callbacks have none)
         self.p('%s callable throws=%d is_method=%d may_return_null=%d skip_return=%s caller_owns=%d instance_transfer=%s n_args=%d' % (
             path, throws, is_method, nullable, skip, _transfer(rv.get('transfer-ownership')), it, len(plist)))
         self.dump_type(path + '.ret', self.type_el(rv), 'ret')
-        if gen or kind in ('function', 'signal'):
-            self.attrs(path, rv, 'retattr')
-        else:
-            self.p('%s retattrget.missing=(null)' % path)
+        self.attrs(path, rv, 'retattr')
         for j, a in enumerate(plist):
             d = a.get('direction') or 'in'
             direction = {'in': 0, 'out': 1, 'inout': 2}[d]
@@ -878,13 +905,9 @@ class Api(object):
 
     def dump_field(self, path, e):
         gen = self.dialect == 'generate'
-        r = e.get('readable')
-        if gen:
-            readable = 0 if r == '0' else 1
-        else:
-            readable = 1 if r is None else None
+        readable = 0 if e.get('readable') == '0' else 1       # fields are readable unless readable="0"
         writable = 1 if e.get('writable') == '1' else 0
-        flags = '*' if readable is None else str(readable + 2 * writable)
+        flags = str(readable + 2 * writable)
         self.p('%s field name=%s flags=%s size=* offset=*' % (path, e.get('name'), flags))
         self.attrs(path, e)
         cb = e.find(q('callback'))
@@ -948,10 +971,8 @@ class Api(object):
             setter = None
         if not readable:
             getter = None
-        # girparser.c start_property does not read `deprecated` (C06's subject): open in the source dialect
-        dep = (1 if e.get('deprecated') is not None else 0) if (self.dialect == 'generate' or e.get('deprecated') is None) else '*'
-        self.p('%s property name=%s deprecated=%s flags=%d transfer=%d setter=%s getter=%s' % (
-            path, e.get('name'), dep, flags, _transfer(e.get('transfer-ownership')),
+        self.p('%s property name=%s deprecated=%d flags=%d transfer=%d setter=%s getter=%s' % (
+            path, e.get('name'), self.dep(e), flags, _transfer(e.get('transfer-ownership')),
             setter or '(null)', getter or '(null)'))
         self.attrs(path, e)
         self.dump_type(path + '.t', self.type_el(e), 'property')
@@ -1156,7 +1177,8 @@ def canon(lines):
     for l in lines:
         m = _ATTR_RE.match(l)
         if m:
-            out[(m.group(1), m.group(2), m.group(4))] = None
+            # one key per (node, accessor, name=value): present on both sides or a difference
+            out[(m.group(1), m.group(2), m.group(4))] = [m.group(4)]
             continue
         parts = l.split(' ')
         path = parts[0]
@@ -1190,7 +1212,8 @@ def _tok_match(a, b):
 
 
 def diff_dumps(expected, actual):
-    """-> list of (key, expected line tokens or None, actual tokens or None, token-name or None)"""
+    """-> list of (key, expected line tokens or None, actual tokens or None, token-name or None);
+    one entry per differing token of a line (so that no difference hides behind another one)"""
     A, B = canon(expected), canon(actual)
     out = []
     for key in sorted(set(A) | set(B), key=lambda k: (k[0], k[1], k[2])):
@@ -1198,7 +1221,7 @@ def diff_dumps(expected, actual):
             out.append((key, None, B[key], None))
         elif key not in B:
             out.append((key, A[key], None, None))
-        elif A[key] is not None:
+        else:
             ta, tb = A[key], B[key]
             if len(ta) != len(tb):
                 out.append((key, ta, tb, None))
@@ -1206,7 +1229,6 @@ def diff_dumps(expected, actual):
             for x, y in zip(ta, tb):
                 if not _tok_match(x, y):
                     out.append((key, ta, tb, x.split('=')[0]))
-                    break
     return out
 
 
@@ -1282,6 +1304,11 @@ def report(ctx, key, what, replay):
     ctx.report_failure(key, what, replay)
 
 
+def _show(toks):
+    """one side of a difference: the line's tokens, or that the line is absent on that side"""
+    return '<no such line>' if toks is None else repr(' '.join(toks))
+
+
 def classify(check, d, expected_api):
     """finding key for one difference (key, expected tokens, actual tokens, token name)"""
     (path, item, rest), exp, act, tok = d
@@ -1291,21 +1318,31 @@ def classify(check, d, expected_api):
         kind = expected_api.entry_kind(expected_api.entries[int(top[1:])])
     kname = {1: 'function', 2: 'callback', 3: 'record', 4: 'boxed', 5: 'enum', 6: 'enum', 7: 'object', 8: 'interface',
              9: 'constant', 11: 'union'}.get(kind, 'ns')
-    if item == 'entry' and tok == 'deprecated' and kind == 11:
+    def val(toks):
+        for t in toks or ():
+            if t.startswith(tok + '='):
+                return t[len(tok) + 1:]
+        return None
+    want, got = (val(exp), val(act)) if tok else (None, None)
+    # the PENDING findings, each recognised by the exact datum that is wrong and the exact wrong value
+    if item == 'entry' and tok == 'deprecated' and kind == 11 and (want, got) == ('1', '0'):
         return '%s:union:deprecated' % check
-    if check == 'generate' and item == 'entry' and tok == 'deprecated' and kind == 9:
-        return 'generate:constant:deprecated'
     if check == 'generate':
-        if kind in (5, 6) and ((item == 'enum' and tok == 'n_methods') or re.match(r'^e\d+\.m\d+', path)):
-            return 'generate:enum:methods'
-        if item == 'struct' and tok == 'foreign':
+        if item == 'entry' and tok == 'deprecated' and kind == 9 and (want, got) == ('1', '0'):
+            return 'generate:constant:deprecated'
+        if item == 'constant' and tok == 'deprecated' and (want, got) == ('1', '0'):
+            return 'generate:constant:deprecated'
+        if kind in (5, 6):
+            if item == 'enum' and tok == 'n_methods' and got == '0':
+                return 'generate:enum:methods'
+            if re.match(r'^e\d+\.m\d+(\.|$)', path) and act is None:      # the lines of the unwritten functions
+                return 'generate:enum:methods'
+        if item == 'struct' and tok == 'foreign' and (want, got) == ('1', '0'):
             e = expected_api.entries[int(top[1:])]
             if e.find(q('attribute')) is not None:
                 return 'generate:record:foreign-after-attributes'
-        if item == 'callable' and tok == 'instance_transfer':
+        if item == 'callable' and tok == 'instance_transfer' and (want, got) == ('2', '0'):
             return 'generate:callable:instance-transfer'
-        if item == 'constant' and tok == 'deprecated':
-            return 'generate:constant:deprecated'
     missing = 'missing' if act is None else ('unexpected' if exp is None else (tok or 'shape'))
     return '%s:%s:%s:%s' % (check, kname, item, missing)
 
@@ -1346,7 +1383,7 @@ def judge(ctx, cnt, res, where):
                     continue
                 seen.add(key)
                 fail(key, 'public API differs from the source GIR at %s %s: GIR says %s, API reports %s'
-                     % (d[0][0], d[0][1], ' '.join(d[1]) if d[1] else d[1], ' '.join(d[2]) if d[2] else d[2]))
+                     % (d[0][0], d[0][1], _show(d[1]), _show(d[2])))
             cnt.hit('api:ok' if not diffs else 'api:differs')
     # (4): g-ir-generate
     if 'gen' in res:
@@ -1370,7 +1407,7 @@ def judge(ctx, cnt, res, where):
                         continue
                     seen.add(key)
                     fail(key, 'g-ir-generate output differs from the source GIR at %s %s: source %s, generated %s'
-                         % (d[0][0], d[0][1], ' '.join(d[1]) if d[1] else d[1], ' '.join(d[2]) if d[2] else d[2]))
+                         % (d[0][0], d[0][1], _show(d[1]), _show(d[2])))
                 cnt.hit('generate:ok' if not diffs else 'generate:differs')
     return problems
 
